@@ -340,12 +340,14 @@ func (sc SimpleColumn) WriteTo(store ReadOnlyFactStore, w io.Writer) error {
 // ReadPred reads matching facts for a single predicate with arity > 0.
 // len(filter) must match p.Arity.
 func (SimpleColumn) readPred(scanner *bufio.Scanner, p ast.PredicateSym, numFacts int, filter []ast.BaseTerm, cb func(args []ast.BaseTerm) error) error {
-	args := make([][]ast.BaseTerm, numFacts)
-	numSkip := 0
-	skip := make([]bool, numFacts)
-	for i := 0; i < numFacts; i++ {
-		args[i] = make([]ast.BaseTerm, p.Arity)
+	if numFacts < 0 {
+		return fmt.Errorf("pred %v negative number of facts %d: %w", p, numFacts, ErrWrongArgument)
 	}
+	// Rows are allocated as the first column is read, so that a corrupted count in the
+	// header cannot make us allocate more than the file can possibly fill.
+	var args [][]ast.BaseTerm
+	numSkip := 0
+	var skip []bool
 	// TODO: It would be smarter to load and traverse those columns that
 	// have a filter present.
 	for j := 0; j < p.Arity; j++ {
@@ -353,10 +355,17 @@ func (SimpleColumn) readPred(scanner *bufio.Scanner, p ast.PredicateSym, numFact
 			if ok := scanner.Scan(); !ok {
 				return fmt.Errorf("scanning pred %v column %d fact %d: %w", p, j, i, ErrCouldNotRead)
 			}
+			if j == 0 {
+				args = append(args, make([]ast.BaseTerm, p.Arity))
+				skip = append(skip, false)
+			}
 			if skip[i] { // Fact does not match anyway.
 				continue
 			}
 			text := scanner.Text()
+			if len(text) == 0 {
+				return fmt.Errorf("empty line pred %v column %d fact %d: %w", p, j, i, ErrCouldNotRead)
+			}
 			if text[0] == '/' {
 				var err error
 				text, err = percentUnescape(text)
